@@ -124,6 +124,28 @@ class Roots:
         self.memo[key] = r
         return r
 
+    def simple_inline(self, v):
+        """Workspace constructor-like functions (single block, no calls, returns an aggregate of its parameters): substitute."""
+        callee = v[3]
+        f = self.P.fn(callee) or self.P.fn(generic_path(callee))
+        if f is None or f.body is None or f.derived or f.kind not in ("fn", "assoc_fn"):
+            return None
+        key = ("simple", f.path)
+        info = self.memo.get(key)
+        if info is None:
+            ok = f.body.arg_count >= 1 and all(blk["term"]["k"] in ("return", "goto", "drop") for blk in f.body.blocks if not blk["cleanup"])
+            ret = None
+            if ok:
+                ex = exit_sites(self.P, f)
+                if len(ex) == 1 and ex[0][3][0] == "agg":
+                    ret = ex[0][3]
+            info = (ret,)
+            self.memo[key] = info
+        if info[0] is None:
+            return None
+        mapping = {("param", f.path, i): a for i, a in enumerate(v[4])}
+        return subst_params(info[0], mapping)
+
     def closure_return_roots(self, cv):
         """Roots of the value returned by a closure aggregate value (all exits)."""
         if cv[0] != "agg" or cv[1] != "closure":
@@ -171,6 +193,9 @@ class Roots:
             if ti is not None and ti < len(v[4]):
                 return self.roots(v[4][ti], path)
             cs = generic_path(callee) if isinstance(callee, str) else "dyn"
+            sv = self.simple_inline(v)
+            if sv is not None:
+                return self.roots(sv, path)
             if cs.endswith("option::Option::unwrap_or") and len(v[4]) == 2:
                 return {"or(%s;%s)%s" % ("|".join(sorted(self.roots(v[4][0], (("v", "Some"), ("f", 0))))),
                                           "|".join(sorted(self.roots(v[4][1]))), path_str(path))}
@@ -197,9 +222,9 @@ class Roots:
                     if name == p2[0][1] or str(name) == str(p2[0][1]):
                         return self.roots(fv, p2[1:])
             if p2 and p2[0][0] == "ix" and v[1] == "array":
-                for name, fv in v[3]:
-                    out |= self.roots(fv, p2[1:])
-                return out
+                # variable index into an array literal: keep the elements and the index origin
+                elems = ";".join("|".join(sorted(self.roots(fv, p2[1:]))) for _, fv in v[3])
+                return {"A:array[%s][@%s]" % (elems, "|".join(sorted(self.roots(p2[0][1]))))}
             if not p2 and v[1] == "tuple" and self.agg_fields and v[3]:
                 return {"A:tuple(%s)" % ";".join("|".join(sorted(self.roots(fv))) for _, fv in v[3])}
             if not p2 and v[1] == "array" and self.agg_fields:
@@ -607,7 +632,7 @@ def control_conditions(P, fn, b):
         for v, tb in targets:
             if tb not in allowed_targets:
                 continue
-            if be is not None:
+            if be is not None and ty is None:
                 neg = (cond[3] if cond[0] == "cmp" else (cond[2] if len(cond) > 2 else False))
                 truth = (v == "otherwise")
                 labels.append((not truth) if neg else truth)
@@ -809,3 +834,58 @@ def path_conditions(P, fn, target, limit=64):
     if len(out) > limit:
         return None
     return out
+
+
+def subst_params(v, mapping):
+    """Replace ('param', f, i) leaves of a value by the mapped values."""
+    k = v[0]
+    if k == "param":
+        return mapping.get(v, v)
+    if k == "phi":
+        return phi([subst_params(x, mapping) for x in v[1]])
+    if k == "proj":
+        e = v[2]
+        if e[0] == "ix":
+            e = ("ix", subst_params(e[1], mapping))
+        return proj(subst_params(v[1], mapping), e)
+    if k == "agg":
+        return ("agg", v[1], v[2], tuple((n, subst_params(x, mapping)) for n, x in v[3]))
+    if k == "call":
+        return ("call", v[1], v[2], v[3], tuple(subst_params(x, mapping) for x in v[4]))
+    if k == "binop":
+        return ("binop", v[1], subst_params(v[2], mapping), subst_params(v[3], mapping))
+    if k == "unop":
+        return ("unop", v[1], subst_params(v[2], mapping))
+    if k == "cast":
+        return ("cast", v[1], subst_params(v[2], mapping), v[3])
+    if k == "discr":
+        return ("discr", subst_params(v[1], mapping))
+    if k == "upd":
+        return ("upd", subst_params(v[1], mapping), v[2], subst_params(v[3], mapping))
+    if k == "mut":
+        return ("mut", subst_params(v[1], mapping)) + v[2:]
+    return v
+
+
+def mapped_element(v):
+    """v == index(collect(map(iter(X), closure)), k) (through clone/Try) -> (closure value, k, X) else None."""
+    while v[0] == "call" and isinstance(v[3], str) and (transparent_arg(v[3]) == 0 or is_try_branch(v[3])) and last_seg(v[3]) not in ("iter", "into_iter", "index"):
+        v = v[4][0]
+    if not (v[0] == "call" and isinstance(v[3], str) and last_seg(v[3]) == "index" and len(v[4]) == 2 and v[4][1][0] == "const"):
+        if v[0] == "proj" and v[2][0] == "i":
+            base, k = v[1], v[2][1]
+        else:
+            return None
+    else:
+        base, k = v[4][0], v[4][1][2]
+    while base[0] == "proj" or (base[0] == "call" and isinstance(base[3], str) and is_try_branch(base[3])):
+        base = base[1] if base[0] == "proj" else base[4][0]
+    if not (base[0] == "call" and isinstance(base[3], str) and last_seg(base[3]) == "collect"):
+        return None
+    ads, kind, src = iter_chain(base[4][0])
+    if [a for a, _ in ads] != ["map"] or kind not in ("iter", "into_iter"):
+        return None
+    clo = ads[0][1][4][1]
+    if clo[0] != "agg" or clo[1] != "closure":
+        return None
+    return clo, k, src
